@@ -411,18 +411,50 @@ def check_tag_filter(ctx, db):
     ctx.violation('R-SHAPE', 'read_gds/ENDEL-filter:shape', outer.loc() if outer is not None else f.loc(), 'ENDEL tag-filter structure not recognised')
 
 
+def check_decoder_conversions(ctx, db):
+    """The summary and the full loader decode the tag-carrying fields the same way: for LAYER, DATATYPE, TEXTTYPE and BOXTYPE the
+    chain of conversions applied to the 16-bit payload word on its way into the tag (sa/widths.conversion_chain: e.g. int16_t ->
+    uint32_t) is the same set in read_gds and in gds_info. A cast added on one side only makes the two report different tags for
+    layers/types >= 32768, so a filter built from the summary drops shapes the full load keeps."""
+    from .. import widths
+    names = {c['v']: c['n'] for c in db.enum('gdstk::GdsiiRecord')['consts']}
+    chains = {}
+    for qn in ('gdstk::read_gds', 'gdstk::gds_info'):
+        f = db.fn(qn)
+        for sw in [s_ for s_ in f.walk() if s_.k == 'SwitchStmt']:
+            for labels, stmts, top in tables.switch_arms(sw):
+                for l in labels:
+                    if names.get(l) in ('LAYER', 'DATATYPE', 'TEXTTYPE', 'BOXTYPE'):
+                        sig = set()
+                        for s_ in stmts:
+                            for x in s_.walk():
+                                if x.k == 'ArraySubscriptExpr' and (x.t or '').replace('const ', '') in ('int16_t', 'uint16_t', 'short', 'unsigned short'):
+                                    sig.add(widths.conversion_chain(x))
+                        chains.setdefault(names[l], {})[qn] = sig
+    n = 0
+    for rec, by in sorted(chains.items()):
+        a, b = by.get('gdstk::read_gds'), by.get('gdstk::gds_info')
+        if not a or not b:
+            raise AnalysisBroken('record %s: payload word not found in both readers (%s)' % (rec, by))
+        n += 1
+        ctx.check(a == b, 'R-WIDTH', 'gds-tag-decoding/%s' % rec, db.fn('gdstk::gds_info').loc(), 'read_gds and gds_info convert the %s word the same way (%s)' % (rec, sorted(a)),
+                  'the %s word is converted as %s by read_gds but as %s by gds_info: for values >= 32768 the summary and the full load report different tags' % (rec, sorted(a), sorted(b)))
+    ctx.require('R-WIDTH tag-carrying records', n, 4)
+
+
 def run(ctx):
     db = ctx.db
-    check_sibling_tables(ctx, db)
-    check_units(ctx, db)
-    check_header_clones(ctx, db)
-    check_rawcells(ctx, db)
-    check_timestamp(ctx, db)
-    check_tag_filter(ctx, db)
-    check_timestamp_coverage(ctx, db)
-    check_options_untouched(ctx, db)
-    check_payload_strings(ctx, db)
-    check_record_buffers(ctx, db)
+    ctx.attempt(check_sibling_tables, ctx, db)
+    ctx.attempt(check_units, ctx, db)
+    ctx.attempt(check_header_clones, ctx, db)
+    ctx.attempt(check_rawcells, ctx, db)
+    ctx.attempt(check_timestamp, ctx, db)
+    ctx.attempt(check_tag_filter, ctx, db)
+    ctx.attempt(check_timestamp_coverage, ctx, db)
+    ctx.attempt(check_options_untouched, ctx, db)
+    ctx.attempt(check_payload_strings, ctx, db)
+    ctx.attempt(check_record_buffers, ctx, db)
+    ctx.attempt(check_decoder_conversions, ctx, db)
 
 
 MANIFEST = dict(
